@@ -66,12 +66,15 @@ struct Ledger {
     st: HashMap<usize, &'static str>,
     connects: usize,
     pins: usize,
+    last_connect: Option<Instant>,
 }
 
 impl Ledger {
     fn outstanding(&self, bk: &Bookkeeping) -> bool {
-        self.st.values().any(|s| matches!(*s, "dialing" | "opening" | "negotiating" | "in_neg"))
-            || self.pins < self.connects
+        // (an accepted inbound handshake is visible as a future in pending_connections; a remote's connection that has
+        // not reached the listener 2 s after it was made is not waited for any longer)
+        self.st.values().any(|s| matches!(*s, "dialing" | "opening" | "negotiating"))
+            || (self.pins < self.connects && self.last_connect.map(|t| t.elapsed() < Duration::from_secs(2)).unwrap_or(false))
             || !bk.cancel_futures.is_empty()
             || bk.pending_connections > 0
             || bk.pending_raw_connections > 0
@@ -289,6 +292,7 @@ impl<'a> Exec<'a> {
         let kind = if quic && !kind.starts_with("node") { "garbage" } else { kind };
         if !(quic && kind == "garbage") {
             self.ledger.connects += 1;
+            self.ledger.last_connect = Some(Instant::now());
         }
         self.bump("connects");
         self.log(json!({"e": "connect", "kind": kind}));
@@ -563,9 +567,28 @@ async fn run_exec(env: &Env, sched: &Value, seed: u64, fault: &str) -> Outcome {
     let idle_min = Duration::from_millis(120);
     let settled;
     let started = Instant::now();
+    // The idle clock only counts time during which this task demonstrably ran (at most 150 ms per 60 ms round): if
+    // the whole process is stalled for seconds (loaded machine, memory pressure) the transport's timers are late by as
+    // much, and wall-clock idleness would judge operations that never had their time. A round that took longer than the
+    // operation bound additionally marks the execution as lagged (discarded, re-run).
+    let mut idle = Duration::ZERO;
+    let mut prev = Instant::now();
+    let mut seen = x.last_activity;
+    let mut stalled = false;
     loop {
         x.pump(Duration::from_millis(60), |_, _| true).await;
-        let idle = x.last_activity.elapsed();
+        let now = Instant::now();
+        let gap = now - prev;
+        prev = now;
+        if gap > Duration::from_millis(bound_ms) {
+            stalled = true;
+        }
+        if x.last_activity != seen {
+            seen = x.last_activity;
+            idle = Duration::ZERO;
+        } else {
+            idle += gap.min(Duration::from_millis(150));
+        }
         let out = x.ledger.outstanding(&x.h.bookkeeping());
         if !out && idle >= idle_min {
             settled = true;
@@ -582,6 +605,20 @@ async fn run_exec(env: &Env, sched: &Value, seed: u64, fault: &str) -> Outcome {
     }
     let _ = x.h.drain_reports();
     x.log(json!({"e": "quiesce"}));
+    // diagnosis only (after the judged part of the trace): had anything still been outstanding, does one forced re-poll
+    // produce its outcome at once? yes = the outcome was ready and the stream's task had not been woken (lost wake-up),
+    // no = the operation really has not concluded
+    if x.ledger.outstanding(&x.h.bookkeeping()) {
+        let before = x.lines.len();
+        x.dirty = true;
+        x.pump(Duration::from_millis(50), |_, _| false).await;
+        let late = x.lines.split_off(before);
+        x.stats.insert("stuck_executions", 1);
+        x.stats.insert("stuck_resolved_by_forced_repoll", if late.is_empty() { 0 } else { 1 });
+        if std::env::var("TCPLEGAL_DEBUG").is_ok() {
+            eprintln!("STUCK {} late={:?}", x.lines[0], late);
+        }
+    }
     probe.abort();
     for hnd in x.held.drain(..) {
         hnd.abort();
@@ -593,7 +630,7 @@ async fn run_exec(env: &Env, sched: &Value, seed: u64, fault: &str) -> Outcome {
         }
     }
     x.stats.insert("accept_futures_ok", acc_ok);
-    let lagged = lag.load(Ordering::Relaxed) > bound_ms;
+    let lagged = stalled || lag.load(Ordering::Relaxed) > bound_ms;
     Outcome { lines: std::mem::take(&mut x.lines), stats: std::mem::take(&mut x.stats), lagged, settled }
 }
 
